@@ -326,6 +326,30 @@ class Program:
                                 f"the lambda created for every item of the comprehension reads the comprehension variable "
                                 f"`{late[0]}` when it is *called*: by then the comprehension has finished and every copy sees "
                                 f"the last item (bind it with a default argument, `lambda ..., {late[0]}={late[0]}: ...`)"))
+            # (5) `isinstance(value, (int, float))` guarding a `raise`: NumPy scalars other than np.float64 (np.int64,
+            #     np.float32, ...) are not instances of int / float, so ordinary numeric input is rejected
+            for fn in ast.walk(m.tree):
+                if not isinstance(fn, (ast.FunctionDef, ast.AsyncFunctionDef)):
+                    continue
+                params = {a.arg for a in fn.args.posonlyargs + fn.args.args + fn.args.kwonlyargs}
+                for st in ast.walk(fn):
+                    if not (isinstance(st, ast.If) and st.body and isinstance(st.body[-1], ast.Raise)):
+                        continue
+                    t = st.test
+                    if isinstance(t, ast.UnaryOp) and isinstance(t.op, ast.Not):
+                        t = t.operand
+                    else:
+                        continue
+                    if isinstance(t, ast.Call) and isinstance(t.func, ast.Name) and t.func.id == "isinstance" and len(t.args) == 2 and \
+                            isinstance(t.args[0], ast.Name) and t.args[0].id in params:
+                        kinds = t.args[1].elts if isinstance(t.args[1], ast.Tuple) else [t.args[1]]
+                        names = {k.id for k in kinds if isinstance(k, ast.Name)}
+                        if names and names <= {"int", "float", "complex", "bool"} and len(names) == len(kinds):
+                            by_fn.setdefault(id(fn), []).append((
+                                "numeric-type-test", f"{m.path}:{st.lineno}", fn.name, ast.unparse(st.test),
+                                f"{fn.name} rejects `{t.args[0].id}` unless it is an instance of {sorted(names)}: NumPy scalars "
+                                f"such as np.int64 / np.float32 / np.float16 are numbers but not instances of int / float "
+                                f"(numbers.Real / numbers.Number is the test that admits them)"))
             # (3) the truth value of an object whose class defines __len__ / __bool__ (a storage: empty means false)
             #     taken where "was one given at all" is meant
             for fn in ast.walk(m.tree):
@@ -1798,6 +1822,11 @@ class Summariser:
         return (self.module.path, node.lineno, node.col_offset) + tuple(self.stack) + (("L",) + tuple(self.loops),)
 
     def fname(self, attr):
+        if attr.startswith("__") and not attr.endswith("__") and self.cls is not None:
+            # private name mangling: inside a class body `self.__x` is `self._Class__x` of the class that *defines* the method
+            owner = self.owner if isinstance(self.owner, ClassInfo) else self._defining_class()
+            if owner is not None:
+                attr = f"_{owner.name.lstrip('_')}{attr}"
         return self.field_prefix + attr
 
     def _back_reference(self, name):
@@ -2448,7 +2477,25 @@ class Summariser:
             events.append(Mut(cur, meth, (rhs,), (), ("res", self.site(st), "." + meth, (cur, rhs), ()), st.lineno))
         elif isinstance(st, ast.AugAssign):
             cur = self.expr(st.target, events)
-            val = ("op", BINOPS[type(st.op)], cur, self.expr(st.value, events))
+            rhs = self.expr(st.value, events)
+            if isinstance(st.target, ast.Name):
+                # `x op= y` on a name that may denote an object someone else holds (a container / array of the instance,
+                # an argument, what a getter handed out): lists, deques, sets and arrays are changed in place
+                leaves, todo = [], [cur]
+                while todo:
+                    t_ = todo.pop()
+                    if t_[0] == "gate":
+                        todo += [t_[2], t_[3]]
+                    else:
+                        leaves.append(t_)
+                shared = [l for l in leaves if l[0] in ("field0", "param") or
+                          (l[0] in ("res", "tget", "sub", "attr") and any(x[0] in ("field0",) for x in subterms(l)) and
+                           l[0] != "res") or
+                          (l[0] == "tget" and l[1][0] == "res")]
+                if shared and any(l[0] == "field0" or l[0] in ("tget", "sub", "attr") for l in shared):
+                    events.append(Mut(cur, "__i" + type(st.op).__name__.lower() + "__", (rhs,), (),
+                                      ("res", self.site(st), ".__iop__", (cur, rhs), ()), st.lineno))
+            val = ("op", BINOPS[type(st.op)], cur, rhs)
             self.assign(st.target, val, events, st, aug=BINOPS[type(st.op)])
         elif isinstance(st, (ast.For, ast.While)):
             self.loop(st, events)
